@@ -25,4 +25,10 @@ theorem timer_loop_guarded : Extracted.timerIdleLoopGuarded = treeGuarded := by 
     never a live dict view across an await: the iteration `killer_sweep_visits_all` is about -/
 theorem killer_iterates_snapshots : Extracted.killerIteratesSnapshots = true := by decide
 
+/-- every round of the pausing loop spawns `stop_daemon` for every listed daemon, whatever its stopper holds -/
+theorem sweep_unconditional (i : Inst) : Extracted.sweepUnconditional = sweepSpawns i := rfl
+
+/-- the rounds are one second apart -/
+theorem killer_period_eq : Extracted.killerPeriod = killerPeriod := by decide
+
 end Kopf.C09.Tie
